@@ -14,6 +14,7 @@ import Sigverif.Model.Cache
 import Sigverif.Model.Visitor
 import Sigverif.Model.Grammar
 import Sigverif.Model.Discovery
+import Sigverif.Model.WrappersAttr
 namespace SV.Proto
 
 def splitNE (s : String) (sep : String) : List String :=
@@ -629,6 +630,12 @@ def handle (line : String) : String :=
       some (match runVisitor (render p) with
         | .ok cs => showRes (discoveredHint own P W (resolveWith tbl pm) (some cs))
         | .error e => "err " ++ showErr e)
+    | "wlist" :: lv :: [] => do
+      -- wrappers.wrappers over a stack of levels, outermost first: S<w> = sigtools level, W = functools.wraps level
+      let toks := if lv = "_" then [] else lv.splitOn "."
+      let ls ← toks.mapM (fun t => if t = "W" then some WLevel.wraps
+                                    else if t.startsWith "S" then (t.drop 1).toNat?.map WLevel.sig else none)
+      some ("ok " ++ showNatList (wrappersNew (buildW ls)))
     | "pdeclared" :: pm :: k :: rest => do
       -- the same from the GROUND TRUTH instead of the visitor (C06's expected value)
       let (tbl, rest) ← parseResolve (← k.toNat?) rest
